@@ -131,3 +131,28 @@ def history(rng, fractional=True):
 
 def line_of(text, upt, script):
     return "exec " + text.encode("utf-8").hex() + " " + upt + " " + script
+
+
+def delay_start_fail(rng):
+    """a dedicated family: a named interval is delayed, then started, then the goal of the alternative that follows it is
+    made to fail, which leaves only the alternative that wants the interval later - what is frozen must stay where it is"""
+    d = rng.randint(2, 4)
+    k = rng.randint(3, 6)
+    delay = rng.randint(1, 3)
+    lines = ["predicate A(real x) : Interval { duration >= 1.0; }",
+             f"goal x0 = new A(x: 1.0);", f"x0.duration >= {num_text(F(d))};"]
+    extra_atoms = []
+    if rng.random() < 0.5:
+        lines.append("goal y0 = new A(x: 5.0);")
+        lines.append(f"y0.start >= {num_text(F(rng.randint(0, 4)))};")
+        extra_atoms.append(("y0", "A"))
+    lines.append("{ goal g = new A(x: 2.0); g.duration >= 2.0; g.start >= x0.end; } or { goal g = new A(x: 3.0); g.duration >= 2.0; x0.start >= g.end; "
+                 + f"g.start >= {num_text(F(k))};" + " }")
+    atoms = [("x0", "A")] + extra_atoms
+    nt = delay + d + k + 8
+    steps = ["t"] * nt
+    fail_at = delay + 1 + rng.randint(1, d)            # a tick after x0 has started
+    steps.insert(min(fail_at, len(steps)), f"f:n{len(atoms)}")
+    script = ",".join([f"ds:1:x0:{delay}"] + steps)
+    return "\n".join(lines) + "\n", "1", script, {"kind": "exec", "atoms": atoms, "cons": [], "upt": F(1)}
+
